@@ -243,6 +243,7 @@ let dispatch (req : Sexp.t) : Sexp.t =
             go s' cs' (L [put_outcome o; put_hstate s'] :: acc)
           | _ -> failwith "cmd list" in
         L (go h_init (match cs with L l -> l | _ -> failwith "list") [])
+      | "crash_prefix", [p; t; k] -> put_fs (crash_prefix (get_aplan p) (get_fs t) (get_nat k))
       | "spec_apply", [p; t] -> put_fs (spec_apply (get_aplan p) (get_fs t))
       | "serde_plan", [p] ->
         let p = get_plan p in
